@@ -371,7 +371,7 @@ class Visitor:
                 name=node.name,
                 value=None,
                 annotation=safe_get_annotation(node.returns, parent=self.current),
-                lineno=node.lineno,
+                lineno=lineno,
                 endlineno=node.end_lineno,
                 docstring=self._get_docstring(node),
                 runtime=not self.type_guarded,
